@@ -26,6 +26,7 @@ import (
 	"hash"
 	"io"
 	"math/big"
+	"os"
 	"reflect"
 	"unsafe"
 )
@@ -852,4 +853,78 @@ func M_ParseCertificateRequest(der []byte) (*x509.CertificateRequest, error) {
 		return nil, err
 	}
 	return &x509.CertificateRequest{Raw: append([]byte{}, der...), PublicKey: pub}, nil
+}
+
+// ---------- in-memory file system (models *os.File for the FSIM temp-file/rename idiom) ----------
+
+// ModelFile stands in for an *os.File: the pointer handed to the code under test
+// is a *ModelFile in disguise (the code only calls the replaced methods on it).
+type ModelFile struct {
+	Path   string
+	Data   []byte
+	Closed bool
+}
+
+// MFS is the set of existing files by path.
+var MFS = map[string]*ModelFile{}
+var mfsTemps int
+
+// FSReset empties the model file system (harness start).
+func FSReset() {
+	MFS = map[string]*ModelFile{}
+	mfsTemps = 0
+}
+
+// FSFile returns the content of an existing file.
+func FSFile(path string) ([]byte, bool) {
+	f, ok := MFS[path]
+	if !ok {
+		return nil, false
+	}
+	return f.Data, true
+}
+
+// FSCount is the number of existing files.
+func FSCount() int { return len(MFS) }
+
+func mfile(f *os.File) *ModelFile { return (*ModelFile)(unsafe.Pointer(f)) }
+
+func M_CreateTemp(dir, pattern string) (*os.File, error) {
+	mfsTemps++
+	mf := &ModelFile{Path: "/tmp/" + pattern + "." + string(rune('0'+mfsTemps))}
+	MFS[mf.Path] = mf
+	return (*os.File)(unsafe.Pointer(mf)), nil
+}
+func M_FileWrite(f *os.File, b []byte) (int, error) {
+	mf := mfile(f)
+	if mf.Closed {
+		return 0, os.ErrClosed
+	}
+	mf.Data = append(mf.Data, b...)
+	return len(b), nil
+}
+func M_FileName(f *os.File) string { return mfile(f).Path }
+func M_FileClose(f *os.File) error {
+	mf := mfile(f)
+	if mf.Closed {
+		return os.ErrClosed
+	}
+	mf.Closed = true
+	return nil
+}
+func M_Remove(name string) error {
+	if _, ok := MFS[name]; !ok {
+		return os.ErrNotExist
+	}
+	delete(MFS, name)
+	return nil
+}
+func M_Rename(oldpath, newpath string) error {
+	mf, ok := MFS[oldpath]
+	if !ok {
+		return os.ErrNotExist
+	}
+	delete(MFS, oldpath)
+	MFS[newpath] = mf // (*os.File).Name keeps reporting the name the file was opened with
+	return nil
 }
